@@ -305,3 +305,44 @@ Proof.
   split; [exists twinF16; split; [left; reflexivity | vm_compute; reflexivity] |].
   vm_compute. repeat split; reflexivity.
 Qed.
+
+(** ** finding F23 (REPAIRED): geomhelp.Shoelace multiplied the raw ordinates; far from the origin of the CRS the area
+    of a ring of a few pixels was rounding noise, sortPolyIdxsByOuterAreaDesc ordered the shells wrongly and
+    matchInnersToPolygons attached a hole to the larger instead of the smallest containing polygon
+    (corpus/C04/F23_shoelace_repro_test.go.txt).  The exact model could not see it: in exact arithmetic the body
+    before the repair and the regenerated body compute the same number ([C04_shoelace_bodies_agree_exactly]).
+    The regression therefore runs the REGENERATED Shoelace (gen/GeomHelpFloatGen.v, translator/geomhelp.go) in
+    IEEE-754 binary64 (Coq.Floats.SpecFloat: executable, axiom-free; Snap/GoFloatOps.v) on the two shells of the
+    witness as snapped (Snap/FloatWitnesses.v). *)
+From Coq Require Import Floats.SpecFloat.
+From Texel Require Import Tms.Json Snap.GoGeomHelp Snap.GoFloatOps Snap.FloatWitnesses Snap.ProofsGenGeomHelp
+  Snap.ProofsGenGeomHelpFloat.
+From Texel.Gen Require Import GeomHelpGen GeomHelpFloatGen.
+Open Scope Z_scope.
+
+(** on every list of rational points: the hand transcription of the body before the repair ([shoelace_raw]) and the
+    regenerated Shoelace return equal numbers *)
+Theorem C04_shoelace_bodies_agree_exactly : forall (eps : Q) (l : list qpt),
+  exists a b : Q, shoelace_raw (Qops eps) l = Ok a /\ gen_Shoelace l = Ok b /\ (a == b)%Q.
+Proof. exact shoelace_raw_agrees. Qed.
+Print Assumptions C04_shoelace_bodies_agree_exactly.
+
+(** binary64, bit for bit.  Body before the repair: 0 for the 30 x 30 pixel shell, 0.0625 for the 16 x 16 pixel
+    island (wrong order; neither within 0.01 m2 of the exact area).  Regenerated source: 0.078355631139712 and
+    0.022287823634937642 (what the Go code returns, to the last bit), right order, within 1e-12 of the exact areas
+    of the rings.  With the repair undone the regenerated Shoelace is the raw body and this theorem fails. *)
+Theorem C04_regression_F23 :
+  shoelace_raw B64ops f23_big = Ok (b64 0 0) /\
+  shoelace_raw B64ops f23_island = Ok (b64 1 (-4)) /\
+  SFltb (b64 0 0) (b64 1 (-4)) = true /\
+  b64_close (b64 0 0) (exact_area f23_big) (1 # 100) = false /\
+  b64_close (b64 1 (-4)) (exact_area f23_island) (1 # 100) = false /\
+  genF_Shoelace B64ops f23_big = Ok f23_area_big /\
+  genF_Shoelace B64ops f23_island = Ok f23_area_island /\
+  SFltb f23_area_island f23_area_big = true /\
+  b64_close f23_area_big (exact_area f23_big) (1 # 1000000000000) = true /\
+  b64_close f23_area_island (exact_area f23_island) (1 # 1000000000000) = true /\
+  b64_close f23_area_big (Ok (78355631139712 # 1000000000000000)) (1 # 1000000000000) = true /\
+  b64_close f23_area_island (Ok (22287823634937642 # 1000000000000000000)) (1 # 1000000000000) = true.
+Proof. exact f23_regression. Qed.
+Print Assumptions C04_regression_F23.
